@@ -30,7 +30,9 @@ CONSTANTS MaxLen,     \* generation: history length bound
 
 \* "drop": every converter created so far is released (garbage); what later converters return must not
 \* depend on it either - the specification has no notion of object identity or address at all
-Cfgs == {"fresh", "user", "user_nodetail", "same_again", "user_hook", "drop"}
+\* "deep": get_converter() is called with almost no stack left, repeatedly with a little more room; such a call may
+\* fail (RecursionError - a fault of the environment, H_create does not apply) but must leave nothing behind
+Cfgs == {"fresh", "user", "user_nodetail", "same_again", "user_hook", "drop", "deep"}
 
 VARIABLES svHistory,
           svR,      \* trace: run being replayed
@@ -56,7 +58,7 @@ TInit == svR = 1 /\ svL = 1 /\ svMemo = [c \in CCs |-> <<>>] /\ svN = 0 /\ svHis
 
 Unknown == [res |-> "?", acc |-> FALSE]
 Known(cc, i) == i \in DOMAIN svMemo[cc] /\ svMemo[cc][i].res # "?"
-Fails(ev) == CASE ev.e = "Create" -> IF ev.ok THEN {} ELSE {"H_create"}
+Fails(ev) == CASE ev.e = "Create" -> IF ev.ok \/ ("env_fault" \in DOMAIN ev /\ ev.env_fault) THEN {} ELSE {"H_create"}
                [] ev.e = "Probe" -> LET i == ev.input + 1 IN
                                     (IF Known(ev.cc, i) /\ svMemo[ev.cc][i].res # ev.res THEN {"H_agree"} ELSE {})
                                     \* whether an input is accepted never depends on the configuration
